@@ -12,7 +12,7 @@ RULE = (
     "from write_blob); R2 fs::remove_file is called only in Store::gc and only under "
     "extension==FRAGMENT_EXT && !referenced.contains(path); R3 in open_with_lock the manifest handed to the "
     "returned Store derives from the on-disk manifest only under parsed.is_some() && schema==SCHEMA_VERSION && "
-    "global_key==key, otherwise it is Manifest::default() and on_disk_current is false; R4 save skips the write only "
+    "global_key==key, otherwise it is Manifest::default() and on_disk_current is false; R7 every path out of save has emptied next_files (taken or cleared); R4 save skips the write only "
     "under on_disk_current && next_files==manifest.files, writes with atomic_write after assigning manifest.files, and "
     "sets on_disk_current / runs gc only on the Ok edge; R5 entry/load/keep read manifest.files while "
     "put/invalidate/set_* touch only next_files; R6 try_open passes blocking=false, open passes true."
@@ -244,6 +244,19 @@ def run(world, tier, info, only=None):
         if t["t"] == "call" and place_fields(t["dst"])[-1:] == [(MF, "files")]:
             wblocks.add(bi)
     ck.floor("R4", "assignments to manifest.files in save", len(wblocks), 1)
+    # R7 round isolation: every way out of save leaves next_files empty (moved into manifest.files or cleared), so entries of one
+    # build round cannot leak into the next on a long-lived Store (the language server keeps one)
+    import flow as _flow
+    resets = []
+    for bi, t in sv.calls(r"^core::mem::take$|::(BTreeMap|HashMap)::<K, V.*>::clear$|^core::mem::replace$"):
+        r, pth = _flow.access_path(sv, t["args"][0])
+        if r == ("arg", 1) and pth == ("next_files",):
+            resets.append(bi)
+    esc = _flow.escapes(sv, 0, resets)
+    ck.ob("R7", "save-empties-next_files", bool(resets) and not esc, site(w.fns[fns["save"]]),
+          "every path out of save has taken or cleared self.next_files (round isolation)" if resets and not esc else
+          "save can return with self.next_files still populated (blocks %s): entries of this round leak into the next round's manifest "
+          "on a Store that stays open" % esc)
     aw = sv.calls(r"^veryl_path::atomic_write$")
     ck.floor("R4", "atomic_write calls in save", len(aw), 1)
     raw = [c for c in w.fns[fns["save"]]["calls"] if c["c"] and re.match(r"^std::fs::(write|File::create|OpenOptions)", c["c"])]
